@@ -137,6 +137,24 @@ class Interner:
 
 
 GLOBAL_S = Interner()
+# Collation (opt-in per check): column name -> qualifiers (table names / None) whose `=` / `!=` comparisons use MySQL's default
+# case-insensitive collation; every other string comparison is exact (interned codes).
+CI_COLUMNS = {}
+
+
+def ci_fold(x):
+    """Case fold of an interned string code (identity on non-strings); symbolic codes: ite chain over the interned strings."""
+    S_ = GLOBAL_S
+    if not is_sym(x):
+        nm = S_.i2s.get(x)
+        return S_.code(nm.lower()) if isinstance(nm, str) and nm.lower() != nm else x
+    out = x
+    for c, nm in list(S_.i2s.items()):
+        if isinstance(nm, str) and nm.lower() != nm:
+            out = z3.If(x == c, S_.code(nm.lower()), out)
+    return out
+
+
 # fixed registration order => codes are identical in every process (replay files carry them)
 for _s in (['Pending', 'Ready', 'Creating', 'Running', 'Success', 'Failed', 'Error', 'Cancelled', 'pending', 'active',
             'inactive', 'deleted', 'open', 'running', 'complete', 'activation_timeout', 'cancelled', 'deactivated', 'error',
@@ -439,6 +457,9 @@ class Interp:
         n = b_or(a.n, b.n)
         if op in ('=', '!=', '<', '<=', '>', '>='):
             x, y = a.v, b.v
+            if CI_COLUMNS and op in ('=', '!=') and any(e_[0] == 'col' and e_[2] in CI_COLUMNS and e_[1] in CI_COLUMNS[e_[2]]
+                                                        for e_ in (l, r) if isinstance(e_, tuple) and len(e_) == 3):
+                x, y = ci_fold(x), ci_fold(y)   # a comparison involving a case-insensitively collated column
             if not is_sym(x) and not is_sym(y):
                 res = {'=': x == y, '!=': x != y, '<': x < y, '<=': x <= y, '>': x > y, '>=': x >= y}[op]
             else:
